@@ -29,7 +29,7 @@ P = {
                 tech="abstract interpretation (own AST interpreter): row-set frames for the daily/billing assembly, aggregation descriptions for billing predict, provenance values (incl. 1-d arrays, masks, insert, rolling means) over the exhaustive IANA day-shape domain for the DST helpers; def-use for the hourly reindex", ref="4/C06, 9.6, 9.8, 9.10"),
     "C07": dict(text="Every path of the daily/billing _predict (masking on) passes an *effective* NaN store into observed for the rows of the re-appended frame whose temperature is missing or not finite (the masks are evaluated on one cell per case: NaN, +inf, -inf); stores into mask-selected temporaries are detected; predictions are produced only for rows that survived the completeness filters.",
                 tech="abstract interpretation of _initialize_data/_predict over row-set frames (stores reach the returned object, explored over flag/column/emptiness scenarios; store masks carry their meaning and are evaluated per cell state) + no-effect-store lint (ast)", ref="4/C07, 9.8"),
-    "C08": dict(text="Threshold/operator tables of the off-cycle and 50% rules (billing period length in whole days: the generic period spans the autumn clock change, d days and one hour), aggregation-kind typing (sum vs mean; /coverage only on sums), interval-spreading structure (billing side read off the terms the meter roll-up builds: cumulative as_freq on the cleaned bills, open final row dropped, closing NaN one day after the last covered day, for every granularity and branch). Gaps must reach the coverage rule (the series handed to the down-sampling helper still carries its missing readings). The conservation sums themselves (pandas resampling arithmetic) are not decided.",
+    "C08": dict(text="Threshold/operator tables of the off-cycle and 50% rules (billing period length in calendar days: the generic period spans the autumn clock change, d days and one hour, or the spring one, d days less one hour - open finding F28), aggregation-kind typing (sum vs mean; /coverage only on sums), interval-spreading structure (billing side read off the terms the meter roll-up builds: cumulative as_freq on the cleaned bills, open final row dropped, closing NaN one day after the last covered day, for every granularity and branch). Gaps must reach the coverage rule (the series handed to the down-sampling helper still carries its missing readings). The conservation sums themselves (pandas resampling arithmetic) are not decided.",
                 tech="symbolic interpretation of the daily data class's meter roll-up (what is handed to the down-sampling helper); one-row abstract interpretation of downsample_and_clean_daily_data (day of coverage c: kept, rescaled, warned); symbolic interpretation of as_freq on recording values compared with a reference term; interpretation of compute_minimum_granularity on threshold representatives; threshold tables (mask normalisation) + aggregation-kind tags (ast)", ref="4/C08, 9.8, 9.9"),
     "C09": dict(text="A mean is never rescaled by coverage, the daily frame receives daily-kind columns, the 50% blanking rules of both routes decided by outcome (a day of coverage c on the sub-daily route; a meter day with n present / m absent readings among complete days on the hourly route, incl. the 23- and 25-hour days and a companion day without readings: blank iff at most half present, warned iff a day was blanked) and count definitions, sibling cross-check of the daily and billing implementations. merge_asof grouping and timezone arithmetic are not decided. The readings handed to the aggregation are the caller's temperature column, value-unchanged (R09.5); every calendar day of the span is a meter row, matched on year, month and day (R09.6).",
                 tech="abstract interpretation on recording frames: compute_temperature_features (aggregator and rename tables applied, grouping described) and _set_data (temperature column reaches the aggregation unaltered); one-row abstract interpretation of both routes of _compute_temperature_features in both siblings (generic row + typical row + companion row; call records of as_freq / compute_temperature_features); kind tags per path (from the symbolic interpretation of as_freq) + sibling cross-check (ast)", ref="4/C09, 9.8, 9.9"),
